@@ -202,6 +202,12 @@ def encode_movie(m, rng=None, info=None):
             if first != real:
                 items[first], items[real] = items[real], items[first]
     mmap_at = rng.randrange(1, len(items) + 2)
+    if m.get("last") is not None:
+        # this resource is stored physically last (its header is the final 8 bytes of the file when its payload is empty)
+        want = tuple(m["last"]) if isinstance(m["last"], list) else m["last"]
+        pos = next(p for p, it in enumerate(items) if it[0] == want)
+        items.append(items.pop(pos))
+        mmap_at = rng.randrange(1, len(items) + 1)
     order_items = [("imap", b"imap", b"")] + items[:mmap_at - 1] + [("mmap", b"mmap", b"")] + items[mmap_at - 1:]
     ridx = {it[0]: k + 1 for k, it in enumerate(order_items) if it[0] != "decoy"}
     # KEY*
@@ -332,6 +338,44 @@ def stub_case(rng, flavour="valid"):
     return Case(kind="stub-" + flavour, spec=spec, lines=[f"dir stub {m['order']} {P} {hx(data)}"], expect=[exp])
 
 
+def last_chunk_cases(rng, tier):
+    """position of a resource inside the file must not matter: every kind of resource in turn is stored physically LAST, once with its
+    payload and (where the decoders accept that) once EMPTY, so that the file ends right after an 8-byte chunk header: an empty cast
+    table (movie without members), an empty thumbnail / text / sound / bitmap chunk linked to a member, empty optional chunks"""
+    out = []
+    reps = dict(quick=2, thorough=12, search=6)[tier]
+    for _ in range(reps):
+        for what in ("cas-empty", "link-empty", "link", "vwcf-empty", "cast", "opt-empty", "scr"):
+            for _try in range(300):
+                m = gen_stub_movie(rng, "valid")
+                if what == "cas-empty":
+                    m["members"] = []; m["last"] = "cas"; break
+                if what == "vwcf-empty":
+                    m["vwcf"] = b""; m["last"] = "vwcf"; break
+                if what == "opt-empty":
+                    k = rng.choice(["fmap", "vwlb", "vwsc", "lnam"]); m[k] = b""; m["last"] = k; break
+                if what == "scr" and m.get("scripts") and any(s is not None for s in m["scripts"]):
+                    i = rng.choice([i for i, s in enumerate(m["scripts"]) if s is not None]); m["last"] = ("scr", i); break
+                own = [(i, j) for i, s in enumerate(m["members"]) if s for j, _ in enumerate(s["links"])]
+                if what in ("link", "link-empty") and own:
+                    i, j = rng.choice(own)
+                    if what == "link-empty":
+                        m["members"][i]["links"][j] = (m["members"][i]["links"][j][0], b"")
+                    m["last"] = ("link", i, j); break
+                if what == "cast" and any(m["members"]):
+                    m["last"] = ("cast", rng.choice([i for i, s in enumerate(m["members"]) if s])); break
+            else:
+                continue
+            data = encode_movie(m)
+            P = len(m["prefix"])
+            exp = canon(to_jsonable(assemble_spec(m, STUBS)))
+            spec = dict(mode="stub", flavour="last-" + what, order=m["order"], prefix_len=P, nslots=len(m["members"]),
+                        nscripts=len(m["scripts"] or []), sha=hashlib.sha1(data).hexdigest()[:12],
+                        movie=json.loads(canon(to_jsonable(m))))
+            out.append(Case(kind="stub-last-" + what, spec=spec, lines=[f"dir stub {m['order']} {P} {hx(data)}"], expect=[exp]))
+    return out
+
+
 # ---- real mode: recombine member bundles harvested from the repo's .DIR fixtures
 
 _POOL = None
@@ -344,24 +388,29 @@ def harvest():
         return _POOL
     import logging
     logging.disable(logging.CRITICAL)
-    from drxtract.riff.riff import parse_riff
-    from drxtract.riff.imap import parse_imap
-    from drxtract.riff.mmap import parse_mmap
-    from drxtract.key.key import parse_key_file_data
-    from drxtract.cas.cas import parse_cas_file_data
+    # the fixtures are read with the harness's own walker (RIFX header, imap -> mmap -> chunk headers), never with the repo's
+    # parsers: a change to those must not be able to empty or skew the pool the cases are drawn from
     pool = dict(members=[], vwcf=[], fmap=[], vwlb=[], vwsc=[], palette_pairs=[])
     for p in sorted((REPO / "tests" / "files" / "cast").rglob("*.DIR")):
         try:
             data = p.read_bytes()
             order = "<" if data[:4] == b"XFIR" else ">"
-            r = parse_riff(data, 0, order)
-            im = parse_imap(r.chunks[0].data, order)
-            mm = parse_mmap(r.get_by_offset(im.offset).data, order)
+            U = lambda fmt, off: struct.unpack(order + fmt, data[off:off + struct.calcsize(fmt)])
+            mmap_off = U("ii", 20)[1]
+            hdr, stride, _maxc, used = U("hhii", mmap_off + 8)
+            res = []
+            for i in range(used):
+                e = mmap_off + 8 + hdr + i * stride
+                cc = data[e:e + 4][::-1] if order == "<" else data[e:e + 4]
+                res.append((cc.decode("latin-1"), U("i", e + 8)[0]))
+            class _Ch:
+                def __init__(self, off):
+                    self.data = data[off + 8:off + 8 + U("i", off + 4)[0]]
             def chunk_of(i):
-                return r.get_by_offset(mm.resources[i].offset)
-            by = lambda cc: next((chunk_of(i).data for i, e in enumerate(mm.resources) if e.chunkID == cc), None)
-            key = parse_key_file_data(order, by("KEY*"))
-            cas = parse_cas_file_data(by("CAS*"))
+                return _Ch(res[i][1])
+            by = lambda cc: next((chunk_of(i).data for i, e in enumerate(res) if e[0] == cc), None)
+            casb = by("CAS*")
+            cas = [struct.unpack(">i", casb[k:k + 4])[0] for k in range(0, len(casb) - 3, 4)]
             for cc, k in (("VWCF", "vwcf"), ("Fmap", "fmap"), ("VWLB", "vwlb"), ("VWSC", "vwsc")):
                 b = by(cc)
                 if b is not None and bytes(b) not in pool[k]:
@@ -729,6 +778,7 @@ def cases(rng, tier):
         out += [stub_case(rng, fl) for _ in range(n[1] // 3)]
     out += [stub_case(rng, "wild") for _ in range(n[2])]
     out += scale_stub_cases(rng, tier)
+    out += last_chunk_cases(rng, tier)
     out += [real_case(rng, tier) for _ in range(n[3])]
     # the repo's own movies, spread over the list (the driver splits the lines into contiguous parts, one process each: the few slow
     # ones — large bitmaps — should not queue up behind each other)
